@@ -535,9 +535,11 @@ class Buf:
         self.parts = parts
 
     def copy(self):
-        return Buf(list(self.cells) if self.cells is not None else None,
-                   self.length, self.origin, self.name,
-                   list(self.parts) if self.parts else None)
+        b = Buf(list(self.cells) if self.cells is not None else None,
+                self.length, self.origin, self.name,
+                list(self.parts) if self.parts else None)
+        b.pytype = getattr(self, "pytype", None)
+        return b
 
     def __repr__(self):
         if self.cells is not None:
